@@ -1,4 +1,4 @@
 SPECIFICATION Spec
-CONSTANT Keys = {"rsa4096", "rsa3072p", "ed25519", "ecdsa"}
+CONSTANT Keys = {"rsa4096", "rsa3072p", "ed25519", "ecdsa", "assetsub"}
 INVARIANT Finished
 CHECK_DEADLOCK FALSE
